@@ -89,7 +89,7 @@ __CPROVER_ensures(__CPROVER_return_value <= 15)
 __CPROVER_ensures(mode != 0 ==> (__CPROVER_return_value == S_ERR_OPTION_INVALID && *out == __CPROVER_old(*out)));
 
 /* cellToLocalIjk's error code as a deterministic function of its arguments; differing resolutions are a mismatch
- * (that clause is enforced on the real cellToLocalIjk by job c09.cellToLocalIjk.safe) */
+ * (that clause is enforced on the real cellToLocalIjk by job c09.cellToLocalIjk.mismatch) */
 H3Error __CPROVER_uninterpreted_lijk_err(H3Index origin, H3Index h3);
 H3Error cellToLocalIjk_uf(H3Index origin, H3Index h3, CoordIJK *out)
 __CPROVER_requires(__CPROVER_rw_ok(out, sizeof(CoordIJK)))
@@ -192,4 +192,9 @@ __CPROVER_requires(__CPROVER_is_fresh(out, sizeof(H3Index) * h3v_n) && __CPROVER
 __CPROVER_assigns(__CPROVER_object_whole(out), __CPROVER_object_whole(distances))
 __CPROVER_ensures(__CPROVER_return_value <= 15)
 __CPROVER_ensures(k < 0 ==> __CPROVER_return_value == S_ERR_DOMAIN);
+/* the resolution-mismatch clause of cellToLocalIjk on the real code (partial contract: precondition = resolutions differ) */
+H3Error cellToLocalIjk_mismatch(H3Index origin, H3Index h3, CoordIJK *out)
+__CPROVER_requires(__CPROVER_is_fresh(out, sizeof(CoordIJK)) && S_RES(origin) != S_RES(h3))
+__CPROVER_assigns(*out)
+__CPROVER_ensures(__CPROVER_return_value == S_ERR_RES_MISMATCH && out->i == __CPROVER_old(out->i) && out->j == __CPROVER_old(out->j) && out->k == __CPROVER_old(out->k));
 #endif
